@@ -6,7 +6,7 @@ import gen
 import vlib
 
 MANIFEST = {
-    "text": "Coq theorems over the VM model for EVERY program, all limits, every folding function: in strict mode every error an iteration raises (thread-ending or stored by JUMPI) is appended to the error list and never dropped; every listed error lies inside the code; permissive mode never records one of the four jump-target kinds (JUMP or JUMPI); the flag changes nothing but the error list (same retired states, queue, fork counters, gas) and permissive errors are a subset of strict errors, so when strict mode succeeds permissive mode succeeds on the same states. In the model the flag is read in exactly one place; the tie to the code is the correspondence run of the real VM in BOTH modes, and the property predicate is evaluated on the implementation's own outputs including the layouts of both whole analyses. Against the independent reference EVM (loop-free programs, generous limits): a bad jump the reference reaches must surface in strict mode (38), and EVERY fault the reference reaches -- bad destination or stack fault, per offset and class, also when several paths fault differently at one shared instruction -- must be in strict mode's list (39).",
+    "text": "Coq theorems over the VM model for EVERY program, all limits, every folding function: in strict mode every error an iteration raises (thread-ending or stored by JUMPI) is appended to the error list and never dropped; every listed error lies inside the code; permissive mode never records one of the four jump-target kinds (JUMP or JUMPI); the flag changes nothing but the error list (same retired states, queue, fork counters, gas) and permissive errors are a subset of strict errors, so when strict mode succeeds permissive mode succeeds on the same states. In the model the flag is read in exactly one place; the tie to the code is the correspondence run of the real VM in BOTH modes, and the property predicate is evaluated on the implementation's own outputs including the layouts of both whole analyses. Against the independent reference EVM (loop-free programs, generous limits): a bad jump the reference reaches must surface in strict mode (38), and EVERY fault the reference reaches -- bad destination or stack fault, per offset and class, also when several paths fault differently at one shared instruction -- must be in strict mode's list (39). End to end, on the composed model of the whole analysis (coq/Pipeline.v), for every program, limits, iteration-order mode and fuel: pipeline_strict_success_same_as_permissive (a layout in strict mode is the layout in permissive mode) and pipeline_permissive_errors_subset; the model is run in both modes against the real analysis in both modes.",
     "note": "Trusted: Coq kernel + vm_compute; translator T1/T9; harness; hooks H2/H3. With a watchdog stop the Rust code returns only "
             "the StoppedByWatchdog error (earlier errors are dropped by the early return): the persistence theorem is about the error "
             "buffer, the check uses a never-stopping watchdog.",
@@ -100,5 +100,10 @@ def check(ctx):
                              "outcomes": {**dict(strict_err), **dict(perm_err)},
                              "analysis_classes_strict": dict(collections.Counter(l.split(" ")[1] if l.startswith("XA") else l[:10] for l in outs["an0"])),
                              "analysis_classes_permissive": dict(collections.Counter(l.split(" ")[1] if l.startswith("XA") else l[:10] for l in outs["an1"]))})
+    # the composed model of the whole analysis in both modes: end-to-end theorems + correspondence + the C17 predicates on
+    # the implementation's own pair of results
+    import p_pipeline
+    p_pipeline.suite(ctx, translate=False, codes={15, 16}, cov_key="whole_pipeline_model",
+                     only=r"^(pipeline_strict_success|pipeline_permissive_errors|pipeline_glue|pipeline_rule_order)", focus="modes")
     return vlib.finish(ctx, rule="distinct (program, limits) pairs run in both modes; non-trivial = strict mode fails AND the two modes' "
                        "error lists differ (i.e. the flag mattered)", samples=[gen.vm_line(c, lim + (0,)) for c, lim in keys[:3]])
